@@ -198,3 +198,159 @@ pub fn check2(c: &Roll2Case, stat: Stat2, obs: &mut Obs) -> CheckResult {
     obs.set_nontrivial(len > c.w && three && patterns_differ);
     Ok(())
 }
+
+
+// ---------------------------------------------------------------------------------------------
+// matrix evaluation (any backend / output container) of a RollCase
+
+use crate::backends::{Backend, OutKind};
+use crate::gen::{Mat2Case, MatCase};
+use crate::matrix::{self, Req};
+
+fn on_valid<T, U>(m: &MatCase, stat: Stat) -> Option<Result<(Series, &'static str), String>>
+where
+    T: InElem + IsNone,
+    T::Inner: Number,
+    U: OutElem,
+    f64: Cast<U>,
+    Option<T::Inner>: Cast<U>,
+{
+    let data: Vec<T> = materialize(&m.c.x);
+    let filler = T::from_logical(Some(777.0));
+    matrix::eval_valid_on::<T, U>(
+        m.bk,
+        &data,
+        filler,
+        stat,
+        Req {
+            w: m.c.w,
+            mp: m.c.mp,
+            out_buf: m.c.out_buf,
+            out_kind: m.ok,
+        },
+    )
+}
+
+fn on_plain<T, U>(m: &MatCase, stat: Stat) -> Option<Result<(Series, &'static str), String>>
+where
+    T: InElem + Number,
+    U: OutElem,
+    f64: Cast<U>,
+{
+    let data: Vec<T> = materialize(&m.c.x);
+    let filler = T::from_logical(Some(777.0));
+    matrix::eval_plain_on::<T, U>(
+        m.bk,
+        &data,
+        filler,
+        stat,
+        Req {
+            w: m.c.w,
+            mp: m.c.mp,
+            out_buf: m.c.out_buf,
+            out_kind: m.ok,
+        },
+    )
+}
+
+macro_rules! by_out3 {
+    ($tout:expr, $f:ident, $T:ty, $($a:expr),*) => {
+        match $tout {
+            OutT::F64 | OutT::F32 => $f::<$T, f64>($($a),*),
+            OutT::OptF64 | OutT::OptI32 => $f::<$T, Option<f64>>($($a),*),
+            OutT::I32 => $f::<$T, i32>($($a),*),
+        }
+    };
+}
+
+/// Matrix evaluation supports the element types {f64, Option<f64>, i32} x outputs {f64,
+/// Option<f64>, i32}; other requests are mapped onto these.
+pub fn eval_valid_mat(m: &MatCase, stat: Stat) -> Option<Result<(Series, &'static str), String>> {
+    match m.c.tin {
+        InT::F64 | InT::F32 => by_out3!(m.c.tout, on_valid, f64, m, stat),
+        InT::OptF64 => by_out3!(m.c.tout, on_valid, Option<f64>, m, stat),
+        InT::I32 | InT::I64 | InT::OptI32 => by_out3!(m.c.tout, on_valid, i32, m, stat),
+    }
+}
+
+pub fn eval_plain_mat(m: &MatCase, stat: Stat) -> Option<Result<(Series, &'static str), String>> {
+    match m.c.tin {
+        InT::I32 | InT::I64 | InT::OptI32 => by_out3!(m.c.tout, on_plain, i32, m, stat),
+        _ => by_out3!(m.c.tout, on_plain, f64, m, stat),
+    }
+}
+
+pub fn mat_tout(t: OutT) -> OutT {
+    match t {
+        OutT::F64 | OutT::F32 => OutT::F64,
+        OutT::OptF64 | OutT::OptI32 => OutT::OptF64,
+        OutT::I32 => OutT::I32,
+    }
+}
+
+pub fn eval2_mat(m: &Mat2Case, stat: Stat2) -> Result<(Series, &'static str), String> {
+    let a: Vec<f64> = materialize(&m.c.x);
+    let b: Vec<f64> = materialize(&m.c.y);
+    let req = Req {
+        w: m.c.w,
+        mp: m.c.mp,
+        out_buf: m.c.out_buf,
+        out_kind: m.ok,
+    };
+    match stat {
+        Stat2::RegxAllAlpha | Stat2::RegxAllBeta | Stat2::RegxAllSse => {
+            let (r, label) = matrix::eval2_all_on::<f64, f64, f64>(m.bk, m.bk2, &a, &b, 777.0, 777.0, m.c.w, m.c.mp);
+            let [al, be, ss] = r;
+            Ok((
+                match stat {
+                    Stat2::RegxAllAlpha => al,
+                    Stat2::RegxAllBeta => be,
+                    _ => ss,
+                },
+                label,
+            ))
+        },
+        _ => matrix::eval2_on::<f64, f64, f64>(m.bk, m.bk2, &a, &b, 777.0, 777.0, stat, req),
+    }
+}
+
+/// Boolean mask law (C05): null where the model says null, non-null where it says non-null.
+pub fn mask_check(name: &str, got: &Series, exp: &[Exp], tout: OutT, len: usize) -> CheckResult {
+    if got.len() != len {
+        return fail("len", format!("{}: output length {} for input length {}", name, got.len(), len));
+    }
+    for i in 0..len {
+        let is_null = match tout {
+            OutT::I32 => got[i] == Some(0.0) || got[i].is_none(),
+            _ => got[i].is_none(),
+        };
+        match exp[i].null {
+            Tri::Yes => {
+                if !is_null {
+                    return fail("mask:expected-null", format!("{} at position {}: expected null, got {:?}", name, i, got[i]));
+                }
+            },
+            Tri::No => {
+                if tout != OutT::I32 {
+                    if is_null {
+                        return fail("mask:expected-non-null", format!("{} at position {}: expected a value, got null", name, i));
+                    }
+                    if let Some(g) = got[i] {
+                        if !g.is_finite() && exp[i].alts.iter().all(|(v, _)| v.is_finite()) && !exp[i].alts.is_empty() {
+                            return fail("mask:non-finite", format!("{} at position {}: expected a finite value, got {}", name, i, g));
+                        }
+                    }
+                }
+            },
+            Tri::Any => {},
+        }
+    }
+    Ok(())
+}
+
+pub fn backend_classes(bk: Backend, ok: OutKind, label: &'static str, out_buf: bool, obs: &mut Obs) {
+    let _ = bk;
+    obs.class(label);
+    obs.class(ok.label());
+    obs.class_if(out_buf, "out_buffer_path");
+}
